@@ -30,7 +30,9 @@ def gen_c10(rnd, sid):
             handlers.append(dict(cls="U%d" % c, hid=len(handlers), data=None, scripts=[[act() for _ in range(rnd.choice([0, 0, 1, 2, 3]))] for _ in range(rnd.randint(1, 8))]))
     init = [["enq", "U%d" % rnd.randrange(ncls), rnd.choice([0, 0, 1]), None, sid.next()] for _ in range(rnd.randint(2, 10))]
     return dict(op="machine", mode="c10", width=80, screens=[], handlers=handlers, init=init, stdin=[], quit_cb=None, quit_screen=None,
-                exc_handler=True, run_empty=True, deliver_at=[], same_name=rnd.random() < 0.4)
+                exc_handler=True, run_empty=True, deliver_at=[], same_name=rnd.random() < 0.4,
+                # signal classes deriving from one another (U1 from U0, U2 from U1): a wait for a class is over by a signal of exactly that class, not of a class derived from it
+                derive=rnd.choice([{}, {}, {"U1": "U0"}, {"U1": "U0", "U2": "U1"}, {"U2": "U0"}]))
 
 
 def gen_c10_modal(rnd, sid):
